@@ -50,12 +50,12 @@ pub fn base_repo(msgs: &mut MsgGen, consistent: bool, with_roles: bool) -> Base 
     let role1 = ATargets { version: 1, expires: 7 * DAY, entries: vec![(1, 3, 2)], deleg: None, msg: msgs.next(), sigs: valid_sigs(&[DK]) };
     let role0 = ATargets {
         version: 1, expires: 7 * DAY, entries: vec![(0, 3, 1)],
-        deleg: Some(ADeleg { table: vec![DK], roles: vec![ADRole { name: 1, ids: vec![DK], thr: 1, patterns: vec!["*".into()] }] }),
+        deleg: Some(ADeleg { table: vec![DK], roles: vec![ADRole { name: 1, ids: vec![DK], thr: 1, patterns: vec!["*".into()], hash_prefixes: vec![] }] }),
         msg: msgs.next(), sigs: valid_sigs(&[DK]),
     };
     let top = ATargets {
         version: 1, expires: 7 * DAY, entries: vec![(2, 5, 3)],
-        deleg: if with_roles { Some(ADeleg { table: vec![DK], roles: vec![ADRole { name: 0, ids: vec![DK], thr: 1, patterns: vec!["*".into()] }] }) } else { None },
+        deleg: if with_roles { Some(ADeleg { table: vec![DK], roles: vec![ADRole { name: 0, ids: vec![DK], thr: 1, patterns: vec!["*".into()], hash_prefixes: vec![] }] }) } else { None },
         msg: msgs.next(), sigs: valid_sigs(&[GK]),
     };
     Base { root, top, roles: if with_roles { vec![(0, role0), (1, role1)] } else { vec![] } }
